@@ -881,10 +881,18 @@ def expected_of(model_line):
 def main(ctx):
     r = ctx.rng
     quick = ctx.tier == "quick"
-    ok, errs = ctx.lake_build(["GojaModel.C19.Props", "model_c19"])
+    regen_ok = ctx.regen()
+    targets = ["GojaModel.C19.Props", "model_c19"] + (["GojaModel.C19.Tie"] if regen_ok else [])
+    ok, errs = ctx.lake_build(targets)
+    if regen_ok and not ok and all("Tie.lean" in (e.get("file") or "") for e in errs):
+        # only the tie broke: the model and its theorems still build — keep using them for the search
+        ok2, _ = ctx.lake_build(["GojaModel.C19.Props", "model_c19"])
+        ok = ok2
+    elif regen_ok and ok:
+        ctx.obligation("tie:Generated.C19.shapes = expectedShapes (parse-side Go text as transcribed)", "tie", True, "")
     lean_ok = ok
     if ok:
-        ctx.audit("GojaModel.C19.Props", expect_min=30)
+        ctx.audit("GojaModel.C19.Props", expect_min=37)
         if ctx.tier == "thorough":
             ctx.leanchecker("GojaModel.C19.Props")
     h = ctx.go_build()
@@ -942,6 +950,31 @@ def main(ctx):
     # surrogate adjacency patterns as string values and as object keys (quote through the whole serialiser + MarshalJSON)
     for pat in surrogate_patterns(3) + SURR_KEY_PATTERNS:
         S.append("S n0 o2 s%s s%s s0061 a1 s%s" % (hx(pat), hx(pat), hx(pat)))
+    # mechanism-level serialiser model (Mech.strM) on values with undefined / function leaves x gaps
+    def gen_mval(depth, maxdepth):
+        k = r.random()
+        if depth >= maxdepth or k < 0.45:
+            j = r.random()
+            if j < 0.3: return [r.choice(["u", "F"])]
+            if j < 0.45: return ["z"]
+            if j < 0.55: return [r.choice(["t", "f"])]
+            if j < 0.8: return ["n" + hx(str(r.choice([0, 1, 7, 42, -3])))]
+            return ["s" + hx(r.choice(["", "a", "q\"", "\ud83d\ud83d\ude00"]))]
+        if k < 0.72:
+            n = r.choice([0, 1, 1, 2, 3])
+            out = ["a%d" % n]
+            for _ in range(n): out += gen_mval(depth + 1, maxdepth)
+            return out
+        n = r.choice([0, 1, 2, 2, 3, 4])
+        keys = r.sample(["a", "b", "c", "d", "e", "", "x y", "__proto__", "\u00e9"], n)
+        out = ["o%d" % n]
+        for kk in keys:
+            out.append("s" + hx(kk)); out += gen_mval(depth + 1, maxdepth)
+        return out
+    for _ in range(120 if quick else 2000):
+        toks = gen_mval(0, r.choice([1, 2, 3, 4]))
+        for g in r.sample(gaps_all[:14], 2):
+            S.append("SM " + g + " " + " ".join(toks))
     # allow-lists on plain data (model: stringifyPL = stringify ∘ project)
     SL = [l for l in corpus if l.startswith("SL ")]
     for i in range(100 if quick else 1500):
@@ -965,6 +998,29 @@ def main(ctx):
     for t in V_TEXTS[:8]:
         for rv in V_REVIVERS: V.append("V " + hx("function mk(){ return [%s, %s]; }" % (js_str(t), rv)))
     for _ in range(300 if quick else 6000): V.append(gen_v(r))
+    # replacer function / toJSON hook catalogue of the Lean model (serH / catHooks): text + call log
+    SR = [l for l in corpus if l.startswith("SR ")]
+    sr_keys = ["a", "b", "c", "d", "", "0", "1", "2", "10", "__proto__", "\u00e9", "length", "toJSON", "q\"uote"]
+    sr_wrap = [k for k in sr_keys if not k.isdigit()]
+    for _ in range(300 if quick else 6000):
+        toks = gen_plain(r, 0, r.choice([1, 2, 3, 4]))
+        mode = r.choice(["r", "r", "r", "a", "o", "b", "ar", "or", "br", "br", "n"])
+        D = r.sample(sr_keys, r.choice([0, 0, 1, 2])); Z = r.sample(sr_keys, r.choice([0, 0, 1, 2])); W = r.sample(sr_wrap, r.choice([0, 0, 1, 2]))
+        g = r.choice(gaps_all[:13] + ["s" + hx("\t"), "s" + hx("--")])
+        SR.append("SR %s %s D %s Z %s W %s V %s" % (g, mode, " ".join("s" + hx(k) for k in D), " ".join("s" + hx(k) for k in Z), " ".join("s" + hx(k) for k in W), " ".join(toks)))
+    # revivers that edit their holder (Lean walkM): trigger keys T, delete X from `this`, assign constant C to this[S], undefined for D
+    RM = [l for l in corpus if l.startswith("RM ")]
+    rm_texts = ["{\"a\":1,\"b\":[1,2],\"c\":{\"x\":1},\"d\":4}", "[1,2,3,4]", "{\"b\":1,\"a\":2}", "[[1,2],{\"a\":[3,4],\"b\":5},6]", "{\"a\":{\"a\":{\"b\":1,\"c\":2},\"c\":3},\"b\":[0]}",
+                "{\"1\":1,\"0\":{\"b\":2,\"a\":3},\"c\":[]}", "[{\"c\":1,\"a\":2,\"b\":3},[{\"a\":1}],\"s\"]", "{\"c\":1}", "[]", "3"]
+    rm_consts = ["7", "\"n\"", "null", "[7,8]", "[7,{\"q\":8}]", "{\"q\":[1]}", "[]", "{}"]
+    for _ in range(300 if quick else 6000):
+        text = r.choice(rm_texts)
+        T = r.sample(["a", "b", "c", "0", "1"], r.choice([1, 1, 2]))
+        X = r.sample(["a", "b", "c", "d", "0", "1", "2", "3", "x"], r.choice([0, 1, 2, 3]))
+        Sk = [r.choice(["b", "c", "d", "z", "zz"])] if r.random() < 0.7 else []
+        D = r.sample(["a", "b", "c", "0", "1", "2", "z", ""], r.choice([0, 0, 1, 2]))
+        RM.append("RM %s T %s X %s S %s C %s D %s" % (hx(text), " ".join("s" + hx(k) for k in T), " ".join("s" + hx(k) for k in X),
+                                                  " ".join("s" + hx(k) for k in Sk), hx(r.choice(rm_consts)), " ".join("s" + hx(k) for k in D)))
     # pure revivers of the Lean model (revive / calls): text x dropped keys x nulled keys
     RV = [l for l in corpus if l.startswith("RV ")]
     rv_keys = ["", "0", "1", "2", "3", "10", "a", "b", "c", "__proto__", "x", "\u00e9", "length", "4294967295"]
@@ -997,6 +1053,8 @@ def main(ctx):
     implQ = shard_run(ctx, h, Q)
     implV = shard_run(ctx, h, V)
     implRV = shard_run(ctx, h, RV)
+    implSR = shard_run(ctx, h, SR)
+    implRM = shard_run(ctx, h, RM)
     ctx.log("harness done in %.1fs" % (time.time() - t0))
     if lean_ok:
         t0 = time.time()
@@ -1004,9 +1062,11 @@ def main(ctx):
         modS = shard_run(ctx, model, S)
         modQ = shard_run(ctx, model, Q)
         modRV = shard_run(ctx, model, RV)
+        modSR = shard_run(ctx, model, SR)
+        modRM = shard_run(ctx, model, RM)
         ctx.log("model done in %.1fs" % (time.time() - t0))
     else:
-        modP = modS = modQ = modRV = None
+        modP = modS = modQ = modRV = modSR = modRM = None
     t0 = time.time()
     pyP = [py_parse(us) for us in P]
     ctx.log("python reference done in %.1fs" % (time.time() - t0))
@@ -1017,6 +1077,14 @@ def main(ctx):
     bytag = {}
     mm_model_py = []
     bad_parse = []
+    mechdiff = []
+    if modP is not None:
+        for i in range(len(P)):
+            if " MECHDIFF " in modP[i]:
+                mechdiff.append((i, modP[i]))
+                modP[i] = modP[i].split(" MECHDIFF ")[0]
+        ctx.obligation("corr:mechanism model (Go token stream + goja decode functions, Tok.lean) = spec parser on every text", "correspondence", not mechdiff,
+                       "; ".join("%s -> %s" % (show(unhx(hxu(P[i]))), m[:160]) for i, m in mechdiff[:4]))
     for i, us in enumerate(P):
         ref = pyP[i]
         if modP is not None:
@@ -1138,6 +1206,40 @@ def main(ctx):
         ctx.violation("parse-reviver-walk-differs-from-model", "JSON.parse(%s, pure reviver): model %s, goja %s" % (show(unhx(l.split(" ")[1])), want[:120], got[:120]),
                       {"kind": "input", "op": l, "expected": want, "observed": got, "others": len(badrv) - 1})
 
+    # ------------------------------------------------------------------ compare: holder-editing revivers, Lean walkM vs goja
+    badrm = []
+    if modRM is not None:
+        for i, l in enumerate(RM):
+            if implRM[i].startswith("INCONCLUSIVE") or modRM[i].startswith("INCONCLUSIVE") or modRM[i] == "fuel": continue
+            ctx.nontriv(l)
+            if modRM[i].strip() != implRM[i].strip():
+                badrm.append((l, modRM[i], implRM[i]))
+    ctx.count(len(RM))
+    ctx.obligation("corr:reviver that edits its holder (Lean walkM vs goja): key snapshot, current values, result with holes, call log", "correspondence", not badrm,
+                   "; ".join("%s model=%s goja=%s" % (a[:200], b[:160], c[:160]) for a, b, c in badrm[:3]))
+    if badrm:
+        badrm.sort(key=lambda t: len(t[0]))
+        l, want, got = badrm[0]
+        ctx.violation("parse-reviver-holder-mutation-differs-from-model", "JSON.parse with a reviver that edits its holder: %s: model %s, goja %s" % (l[:200], want[:160], got[:160]),
+                      {"kind": "input", "op": l, "expected": want, "observed": got, "others": len(badrm) - 1})
+
+    # ------------------------------------------------------------------ compare: replacer function / toJSON hooks, Lean model vs goja
+    badsr = []
+    if modSR is not None:
+        for i, l in enumerate(SR):
+            if implSR[i].startswith("INCONCLUSIVE") or modSR[i].startswith("INCONCLUSIVE"): continue
+            ctx.nontriv(l)
+            if modSR[i].strip() != implSR[i].strip():
+                badsr.append((l, modSR[i], implSR[i]))
+    ctx.count(len(SR))
+    ctx.obligation("corr:replacer function / toJSON hooks (Lean serH vs goja) text + call order with holder and key", "correspondence", not badsr,
+                   "; ".join("%s model=%s goja=%s" % (a[:200], b[:160], c[:160]) for a, b, c in badsr[:3]))
+    if badsr:
+        badsr.sort(key=lambda t: len(t[0]))
+        l, want, got = badsr[0]
+        ctx.violation("stringify-replacer-tojson-differs-from-model", "JSON.stringify with replacer function / toJSON hooks: %s: model %s, goja %s" % (l[:200], want[:160], got[:160]),
+                      {"kind": "input", "op": l, "expected": want, "observed": got, "others": len(badsr) - 1})
+
     # ------------------------------------------------------------------ compare: stringify
     xs = {}
     bad_oracle_model = []
@@ -1244,7 +1346,7 @@ def replay(ctx, path):
     if "source" in rp: print("source  :", rp["source"][:600])
     if "text" in rp: print("text    :", rp["text"][:300])
     print("goja    :", got)
-    if (op[0] in "PSQ" or op.startswith("RV ")) and not op.startswith("SJ") and os.path.exists(ctx.model_exe()):
+    if (op[0] in "PSQ" or op.startswith("RV ") or op.startswith("SR ") or op.startswith("RM ")) and not op.startswith("SJ") and os.path.exists(ctx.model_exe()):
         print("model   :", shard_run(ctx, ctx.model_exe(), [op])[0])
     if op[0] == "P":
         print("python  :", py_parse(units(unhx(op[2:].strip())) if len(op) > 2 else []))
